@@ -11,9 +11,11 @@ from __future__ import annotations
 
 import copy
 
+from hypothesis import strategies as st
+
 from .. import ast as A
 from ..runner import Outcome, fail, open_features
-from ..strategies import Cfg, query_case
+from ..strategies import Cfg, query_case, chance
 from ..world import build_entities, enc, dec
 from ..qcheck import (reference_rows, run_query, compare_sets, case_features, all_vars_selected, render_query,
                       used_vars, falsy_in_play, row_consistency)
@@ -39,8 +41,28 @@ def _cfg(tier):
                allow_nested_not="not_under_not" not in open_features())
 
 
+@st.composite
+def _with_prelude(draw, tier):
+    case = draw(query_case(_cfg(tier)))
+    if chance(draw, 1, 3):
+        # the value-position expressions of the query also occur in an EARLIER query over the same variables, as the SAME
+        # expression objects (f = x.a; q1 = an(entity(x, f)); q2 = an(entity(x, f == 0))): there in condition position
+        # (or there as a value); what a position means belongs to the occurrence, not to the object
+        terms = [t for t in list(A.terms_of(case["cond"])) + [t for t in case["sel"]] if A.term_has_mapping(t) and t[0] != "flat"]
+        uniq = []
+        for t in terms:
+            if t not in uniq:
+                uniq.append(t)
+        if uniq:
+            chosen = list(draw(st.permutations(uniq)))[:draw(st.integers(1, min(2, len(uniq))))]
+            leaves = [["truth", t] if chance(draw, 3, 4) else ["cmp", "!=", t, ["const", 77]] for t in chosen]
+            case["prelude"] = leaves[0] if len(leaves) == 1 else [draw(st.sampled_from(["and", "or"])), "nary", leaves]
+            case["share_terms"] = True
+    return case
+
+
 def strategy(tier):
-    return query_case(_cfg(tier))
+    return _with_prelude(tier)
 
 
 # ---- the relabelling phi ----------------------------------------------------------------------------
@@ -116,6 +138,8 @@ def twin(case):
             vd["kw"] = [[f, enc(phi(dec(c)))] for f, c in vd["kw"]]
     if t.get("cond") is not None:
         t["cond"] = _phi_cond(t["cond"])
+    if t.get("prelude") is not None:
+        t["prelude"] = _phi_cond(t["prelude"])
     t["sel"] = [_phi_term(x) for x in t["sel"]]
     return t
 
@@ -141,6 +165,8 @@ def check(case) -> Outcome:
         classes.append("falsy_operand_in_play")
     if any(t[0] != "var" for t in case["sel"]):
         classes.append("value_selected")
+    if case.get("prelude") is not None:
+        classes.append("expression_objects_shared_with_earlier_query")
     try:
         got, _ = run_query(case, objs)
     except Exception as e:
